@@ -44,6 +44,7 @@ INVARIANT MidIffRequested
 INVARIANT Width0Refused
 INVARIANT SampledIffShots
 INVARIANT NoSvNoInitial
+INVARIANT VarRefusesWithExp
 INVARIANT ExportTr
 PROPERTY SettingsStable
 PROPERTY MidSticky
@@ -96,7 +97,10 @@ def do_call(D, b, tr):
             obs["msg"] = r
     else:
         op = D.OPS[tr["op"]]
-        st, r = D.call(lambda: b.get_expectation_value(op, circ, initial_statevector=isv, desired_meas_result=D.DES[tr["des"]]))
+        fn = b.get_expectation_value
+        if tr["act"] == "variance":
+            fn = b.get_standard_error if tr["stderr"] else b.get_variance
+        st, r = D.call(lambda: fn(op, circ, initial_statevector=isv, desired_meas_result=D.DES[tr["des"]]))
         obs = {"cls": st}
         if st == "ok":
             try:
@@ -119,20 +123,32 @@ def do_call(D, b, tr):
 
 
 def compare(tr, obs, mid_before):
-    """Expected outcome record of the spec vs observation: list of (key, detail); empty = conforms."""
+    """Expected outcome record of the spec vs observation: list of (key, detail); empty = conforms. Where the spec names an
+    equally valid alternative outcome (`alt`), conforming to either is conforming."""
+    bad = compare1(tr, obs, mid_before)
+    if bad and "alt" in tr and tr["alt"] != tr["out"]:
+        t2 = dict(tr)
+        t2["out"] = tr["alt"]
+        t2["zero"] = tr["alt"]["cls"] == "ok" and tr.get("stderr") and tr["shots"] == 0
+        if not compare1(t2, obs, mid_before):
+            return []
+    return bad
+
+
+def compare1(tr, obs, mid_before):
     exp = tr["out"]
     bad = []
     act = tr["act"]
     who = "%s:%s" % (act, tr["kind"] if tr["kind"] in ("cirq", "sympy") else "user")
     if not obs["settings_kept"]:
         bad.append((who + ":settings-changed", "the call changed n_shots / noise model / freq_threshold of the object"))
-    if act == "expect" and tr.get("mayempty") and obs["cls"] == "ValueError" and obs.get("tag") == "empty-frequencies":
+    if act in ("expect", "variance") and tr.get("mayempty") and obs["cls"] == "ValueError" and obs.get("tag") == "empty-frequencies":
         return bad          # post-selection kept no shot: the one outcome the spec leaves to chance
-    if (act == "expect" and tr["kind"] == "sympy" and exp["cls"] == "ok" and
+    if (act in ("expect", "variance") and tr["kind"] == "sympy" and exp["cls"] == "ok" and
             ((obs["cls"] == "IndexError" and obs.get("msg", "").startswith("tuple index out of range")) or
              (obs["cls"] == "ValueError" and obs.get("msg", "").startswith("The <class 'sympy.matrices")))):
         # the symbolic target cannot feed its own statevector (sympy Matrix / 1-D array) back as initial_statevector
-        return [("expect:sympy:frequency-route:exception", "%s: %s" % (obs["cls"], obs["msg"]))]
+        return [("expect:sympy:frequency-route:exception", "%s (%s): %s" % (obs["cls"], act, obs["msg"]))]
     if exp["cls"] != obs["cls"]:
         bad.append((who + ":outcome-class:" + exp["tag"], "spec %s (%s), implementation %s %s" % (exp["cls"], exp["tag"], obs["cls"], obs.get("msg", ""))))
         return bad
@@ -155,6 +171,14 @@ def compare(tr, obs, mid_before):
             bad.append((who + ":mid-circuit-saving", "mid_circuit_meas_freqs present=%s, spec %s" % (obs["mid"], tr["midset"])))
         elif exp["mid"] and exp["midlen"] != 9 and obs.get("midlen", -1) not in (exp["midlen"], -1):
             bad.append((who + ":mid-circuit-key-length", "keys of length %s, spec %s" % (obs.get("midlen"), exp["midlen"])))
+    elif act == "variance":
+        if obs.get("not_scalar"):
+            return [(who + ":value-not-a-scalar", "returned %s" % obs["value"])]
+        v = complex(*obs["value"])
+        if abs(v.imag) > 1e-9 or v.real < -1e-9:
+            bad.append((who + ":negative-or-complex", "variance / standard error %s" % obs["value"]))
+        if tr["zero"] and abs(v) > 1e-12:
+            bad.append((who + ":stderr-without-shots", "standard error %s with n_shots = None" % obs["value"]))
     else:
         if obs.get("not_scalar"):
             return [(who + ":value-not-a-scalar", "get_expectation_value returned %s" % obs["value"])]
@@ -172,6 +196,7 @@ def corrupt(tr, rng):
     t = json.loads(json.dumps(tr))
     o = t["out"]
     t["mayempty"] = False
+    t.pop("alt", None)
     if o["cls"] == "ok":
         if t["act"] == "simulate":
             o["sv"] = {"none": "vector", "vector": "matrix", "matrix": "none"}[o["sv"]]
@@ -193,7 +218,7 @@ def run(chk):
     chk.add_tlc(r, "bfs")
     trs = r.prints("TR")
     creates = [t for t in trs if t["act"] == "create"]
-    calls = [t for t in trs if t["act"] in ("simulate", "expect")]
+    calls = [t for t in trs if t["act"] in ("simulate", "expect", "variance")]
     # deterministic order, de-duplicated (the Expect action may export two midset choices for a refused call)
     seen, uniq = set(), []
     for t in sorted(calls, key=lambda t: json.dumps(t, sort_keys=True)):
@@ -234,6 +259,7 @@ def run(chk):
     need = {("simulate", x) for x in ("ok", "desired", "mixed-statevector", "shots-needed-mixed", "width0", "sympy-cmeasure",
                                       "sympy-midcircuit", "unsupported-gate", "cirq-noise-cmeasure")}
     need |= {("expect", x) for x in ("ok", "sv-unsupported", "op-too-wide", "desired", "shots-needed-mixed", "width0")}
+    need |= {("variance", x) for x in ("ok", "sv-unsupported", "op-too-wide", "desired", "shots-needed-mixed", "width0")}
     missing = sorted(x for x in need if x not in tags_seen)
     if missing:
         raise RuntimeError("vacuity guard: outcome rules never exercised: %s" % missing)
